@@ -73,6 +73,7 @@ static void choose_form(Rng &rng, Access &a, const MVar &v, const GenParams &gp,
     if (fam == 0 && (form == F_VARN || form == F_VARD)) form = strided ? F_VARS : F_VARA;
     if (fam == 1) { if (strided) { for (auto &x : a.stride) x = 1; } form = F_VARN; }
     if (fam == 2) form = F_VARD;
+    if (gp.bb && form == F_VARD) form = F_VARS;   // put_vard bypasses the burst-buffer log (not part of C12's fragment)
     a.form = form;
     if (form == F_VARA || form == F_VAR1 || form == F_VARN) { if (!strided) a.stride.clear(); }
     if (form == F_VARS || form == F_VARM || form == F_VARD) { if (a.stride.empty()) a.stride.assign(nd, 1); }
@@ -182,8 +183,9 @@ Program gen_program(uint64_t seed, const GenParams &gp, const std::string &profi
     gen_config(rng, p, gp);
     if (gp.iget_overlap_strict && rng.chance(0.1)) p.cfg.flags |= 1;
     if (gp.invalid_args && rng.chance(0.1)) p.cfg.flags |= 2;   // strict checking of overlapping iget requests
+    if (gp.bb) p.cfg.flags |= 4;   // annotate by the burst-buffer fragment rules
     int np = p.cfg.sim.nprocs;
-    Model gm; gm.init(np, gp.multi_file ? 3 : 1); gm.cur_ops = &p.ops; gm.strict_iget_overlap = (p.cfg.flags & 1) != 0; { auto sm = p.cfg.sim.env.find("PNETCDF_SAFE_MODE"); gm.safe_mode = (sm != p.cfg.sim.env.end() && sm->second != "0"); } { auto h = p.cfg.sim.env.find("PNETCDF_HINTS"); gm.aggr_env = (h != p.cfg.sim.env.end() && h->second.find("nc_num_aggrs_per_node") != std::string::npos); }
+    Model gm; gm.init(np, gp.multi_file ? 3 : 1); gm.cur_ops = &p.ops; gm.strict_iget_overlap = (p.cfg.flags & 1) != 0; gm.bb_rules = gp.bb; { auto sm = p.cfg.sim.env.find("PNETCDF_SAFE_MODE"); gm.safe_mode = (sm != p.cfg.sim.env.end() && sm->second != "0"); } { auto h = p.cfg.sim.env.find("PNETCDF_HINTS"); gm.aggr_env = (h != p.cfg.sim.env.end() && h->second.find("nc_num_aggrs_per_node") != std::string::npos); }
     auto it = p.cfg.sim.env.find("PNETCDF_RELAX_COORD_BOUND"); gm.strict_coord = (it != p.cfg.sim.env.end() && it->second == "0");
     auto emit = [&](Op op) -> bool { p.ops.push_back(op); gm.cur_ops = &p.ops; bool ok = model_step(gm, p.ops.back()); if (!ok) { p.ops.pop_back(); gm.opidx--; } return ok; };
     auto checkpoint = [&]() { Op o; o.kind = OP_CHECKPOINT; emit(o); };
